@@ -32,6 +32,9 @@ def configs(tier):
                     if tier == "quick" and header == 1 and line_delimiter in ("cr", "any") and not checks:
                         continue
                     result.append({"preset": preset, "header": header, "fields": fields, "checks": checks, "line_delimiter": line_delimiter})
+    # a free-text field in the last column: its values may end in white space or consist of it
+    for line_delimiter in ("lf", "crlf"):
+        result.append({"preset": "delimited", "header": 0, "fields": ["id", "name"], "checks": [["uniq", "IsUnique", "id, name"]], "line_delimiter": line_delimiter})
     # other relations of quote and escape character (the output is judged by reading it back)
     for quote, escape in (("\\", "\\"), ("'", "\\"), ('"', "\\"), ("'", '"')):
         result.append({"preset": "delimited", "header": 0, "fields": ["id", "name", "kind"], "checks": [["uniq", "IsUnique", "id"]], "line_delimiter": "lf", "dialect": [quote, escape]})
@@ -79,6 +82,10 @@ def shapes_for(config):
         row = list(dict(shapes).get("ok2", dict(shapes)["ok0"]))
         row[config["fields"].index("name")] = "a\x0c\u2028"
         shapes.append(("ok2-name-with-form-feed-and-line-separator", row))
+    if config["preset"] == "delimited" and config["fields"][-1] == "name":
+        base = dict(shapes)["ok1"]
+        for label, value in (("ends-in-blank", "c "), ("blank-only", " "), ("ends-in-tab", "c\t"), ("starts-with-blank", " c")):
+            shapes.append(("ok1-last-cell-" + label, list(base[:-1]) + [value]))
     return [s for s in shapes if s[0] != "empty"] + [("empty", [])]
 
 
